@@ -19,6 +19,7 @@ RULE = (
     "of UTC timestamps, records without version, extra trailing reserved values, bare-name identifiers, repeated "
     "descriptor/header frames) and decoded by the implementation; (c) a frozen golden corpus written at the pinned "
     "revision. Non-trivial = stream with >=1 record frame; distinct by case digest."
+    " Also: streams of 257 ... 66 000 record types each announced once (both directions), and streams written while some writes were refused (decoded by the reference codec)."
 )
 ASSUMPTIONS = [
     "per-type value encodings are frozen as observed at the pinned revision (golden corpus is the authority)",
